@@ -47,6 +47,11 @@ func (g *gen) next(i int) input {
 			return g.burstInput()
 		}
 		return g.httpInput()
+	case 8:
+		if (i/10)%2 == 0 {
+			return g.chainInput()
+		}
+		return g.httpInput()
 	default:
 		return g.httpInput()
 	}
@@ -60,6 +65,23 @@ func (g *gen) parserConfig(in *input) {
 	in.BadLPM = hlib.Pick(r, []float64{0, 0, 0, 1, 600, 1e9, 1e9, 1e9})
 	in.LogRaw = r.Chance(1, 4)
 	in.IgnoreHost = r.Chance(1, 3)
+}
+
+// valueLine: every metric type with a value at the edges of what a number parser looks at: empty,
+// bare signs, bare points and exponents, 15/16-digit integers, signs in odd places.
+var valueShapes = []string{"", "-", "+", "--", "+-", "-+", "-.", "+.", ".", "..", "e", "E", "-e1", "e1", "1e", "1e+", "1e-", "+inf", "-inf", "inf", "+nan",
+	"-0", "+0", "00", "-00", "0-", "1-", "-1-", "1+1", "+1", "-1", "- 1", " -1", "-\x001", "\x00", "-\x00", "0x", "-0x", "-0x1p3", "1_0", "_1", "-_1",
+	"123456789012345", "1234567890123456", "-123456789012345", "+123456789012345", "999999999999999", "-999999999999999", "12345678901234e", "12345678901234.",
+	"000000000000001", "-00000000000000", "9007199254740993", "1.", "-.5", "+.5e-3", "١"}
+
+func (g *gen) valueLine() string {
+	r := g.r
+	v := hlib.Pick(r, valueShapes)
+	if r.Chance(1, 6) {
+		v = hlib.Pick(r, []string{"-", "+", ""}) + fill(r, r.Range(0, 16), "0123456789")
+	}
+	ty := hlib.Pick(r, []string{"c", "g", "ms", "h", "s"})
+	return hlib.Pick(r, []string{"x", "a.b", "v"}) + ":" + v + "|" + ty + hlib.Pick(r, []string{"", "", "|@0.5", "|#t:1", "|@1|#a,b"})
 }
 
 // utf8Line: bad lines made of UTF-8 fragments around the sizes at which log lines get truncated:
@@ -104,7 +126,11 @@ func (g *gen) lexInput() input {
 	case 0, 1, 9:
 		line, class = lexgen.Line(r, "hostile")
 	case 2:
-		line, class = lexgen.Line(r, "malformed")
+		if r.Bool() {
+			line, class = g.valueLine(), "value-shape"
+		} else {
+			line, class = lexgen.Line(r, "malformed")
+		}
 	case 3, 4:
 		line, class = g.gridLine(), "grid"
 	case 5, 6:
@@ -289,6 +315,8 @@ func (g *gen) dgramLine() string {
 		return lexgen.EventLine(r, true)
 	case k < 10:
 		return g.utf8Line()
+	case k < 11:
+		return g.valueLine()
 	case k < 13:
 		l, _ := lexgen.Line(r, "hostile")
 		return l
@@ -629,6 +657,92 @@ func (g *gen) burstInput() input {
 	in.Gor = hlib.Pick(r, []int{2, 2, 3, 4, 8, 16, r.Range(2, 16)})
 	in.Rounds = hlib.Pick(r, []int{8, 30, 100, 100, 250})
 	in.Class = "burst/" + mode
+	return in
+}
+
+// chainMessage: a RawMessageV2 over a tiny universe of series, so that the requests of one case
+// keep coming back to the same series with different shapes: empty set / members, timer without
+// values / with values, zero / negative counter, gauge.
+func chainMessage(r *hlib.Rand) []byte {
+	m := &pb.RawMessageV2{Counters: map[string]*pb.CounterTagV2{}, Gauges: map[string]*pb.GaugeTagV2{}, Sets: map[string]*pb.SetTagV2{}, Timers: map[string]*pb.TimerTagV2{}}
+	for i, n := 0, r.Range(1, 4); i < n; i++ {
+		name := hlib.Pick(r, []string{"s1", "s2"})
+		key := hlib.Pick(r, []string{"", "k:v"})
+		var tags []string
+		if key != "" {
+			tags = []string{key}
+		}
+		switch r.Intn(4) {
+		case 0:
+			tm := m.Sets[name]
+			if tm == nil {
+				tm = &pb.SetTagV2{TagMap: map[string]*pb.RawSetV2{}}
+				m.Sets[name] = tm
+			}
+			tm.TagMap[key] = &pb.RawSetV2{Tags: tags, Values: hlib.Pick(r, [][]string{nil, nil, {"a"}, {"a", "b"}, {""}})}
+		case 1:
+			tm := m.Timers[name]
+			if tm == nil {
+				tm = &pb.TimerTagV2{TagMap: map[string]*pb.RawTimerV2{}}
+				m.Timers[name] = tm
+			}
+			vals := hlib.Pick(r, [][]float64{nil, nil, {1.5}, {1, 2, 3}})
+			tm.TagMap[key] = &pb.RawTimerV2{Tags: tags, Values: vals, SampleCount: hlib.Pick(r, []float64{0, float64(len(vals)), 10})}
+		case 2:
+			tm := m.Counters[name]
+			if tm == nil {
+				tm = &pb.CounterTagV2{TagMap: map[string]*pb.RawCounterV2{}}
+				m.Counters[name] = tm
+			}
+			tm.TagMap[key] = &pb.RawCounterV2{Tags: tags, Value: hlib.Pick(r, []int64{0, 0, 5, -3})}
+		default:
+			tm := m.Gauges[name]
+			if tm == nil {
+				tm = &pb.GaugeTagV2{TagMap: map[string]*pb.RawGaugeV2{}}
+				m.Gauges[name] = tm
+			}
+			tm.TagMap[key] = &pb.RawGaugeV2{Tags: tags, Value: hlib.Pick(r, []float64{0, 1.5, -2})}
+		}
+	}
+	b, err := proto.MarshalOptions{Deterministic: true}.Marshal(m)
+	if err != nil {
+		panic(err)
+	}
+	return b
+}
+
+var chainProbe = func() []byte {
+	b, _ := proto.Marshal(&pb.RawMessageV2{Counters: map[string]*pb.CounterTagV2{"verif.after": {TagMap: map[string]*pb.RawCounterV2{"": {Value: 1}}}}})
+	return b
+}()
+
+// chainInput: 2-12 requests in order into the real standalone pipeline.
+func (g *gen) chainInput() input {
+	r := g.r
+	n := r.Range(2, 12)
+	bodies := make([]string, n)
+	in := input{Kind: "chain", Class: "chain", Workers: hlib.Pick(r, []int{1, 1, 2, 4}), StaticTags: r.Chance(1, 3), FlushEvery: hlib.Pick(r, []int{0, 0, 0, 3, 5})}
+	for i := range bodies {
+		switch k := r.Intn(12); {
+		case k == 0: // anything the single-request stream draws (mostly answered 400)
+			h := g.httpInput()
+			bodies[i] = h.Data.str()
+			in.Reqs = append(in.Reqs, reqMeta{Ep: h.Ep, Enc: h.Enc, NoEnc: h.NoEnc})
+		case k == 1:
+			codec := hlib.Pick(r, []string{"deflate", "lz4", "identity"})
+			bodies[i] = string(compress(codec, eventMessage(r)))
+			in.Reqs = append(in.Reqs, reqMeta{Ep: "event", Enc: codec})
+		case k == 2:
+			codec := hlib.Pick(r, []string{"deflate", "lz4", "identity"})
+			bodies[i] = string(compress(codec, hlib.Pick(r, [][]byte{rawBoundaryMessage(r), sparseBodies[r.Intn(len(sparseBodies))], rawMessage(r)})))
+			in.Reqs = append(in.Reqs, reqMeta{Ep: "raw", Enc: codec})
+		default:
+			codec := hlib.Pick(r, []string{"deflate", "lz4", "identity", "identity"})
+			bodies[i] = string(compress(codec, chainMessage(r)))
+			in.Reqs = append(in.Reqs, reqMeta{Ep: "raw", Enc: codec})
+		}
+	}
+	in.Data = lists(bodies)
 	return in
 }
 
